@@ -19,7 +19,7 @@ ASSUMPTIONS = ['power / image tolerances 4e-2 (>= 6x the worst interpolation res
                'scale factors are drawn so that n*s is not within 1e-9 of an integer unless it is exactly one']
 PLAN = {'quick': {'gen': 8}, 'thorough': {'gen': 16, 'tests': 1, 'docs': 1}}
 REQUIRED_BUCKETS = ['s<1', 's>1', 's=1', 's:integer', 'shape:odd', 'shape:even', 'shape:nonsquare', 'monolithic', 'segmented',
-                    'resample', 'resample:refused', 'scalar-attributes', 'mask-dtype', 'amp:signed', 's:decimal-near-integer-product', 'subclass:property-override', 'opd:exact-zeros']
+                    'resample', 'resample:refused', 'scalar-attributes', 'mask-dtype', 'amp:signed', 's:decimal-near-integer-product', 'subclass:property-override', 'opd:exact-zeros', 'array-dtype']
 REQUIRED_ANCHORS = ['probe:Plane.rescale', 'anchor:Plane.resample', 'anchor:util.rescale', 'anchor:_plane_slice']
 REQUIRED_ORACLES = ['pixelscale/s', 'shape=ceil(n*s)', 'mask:binary+segments', 'original-untouched', 'identity', 'power',
                     'image', 'extent', 'resample=rescale', 'resample:refused']
@@ -321,6 +321,20 @@ def workload(ctx, lentil):
                 except Exception as e:
                     ctx.check(False, 'mask:binary+segments', f'rescale|mask-dtype|raises={type(e).__name__}',
                               f'rescale of a plane with a {np.dtype(dt).name} mask raised {type(e).__name__}: {e}', desc)
+            # amplitude / OPD arrays held in half or extended precision: planes like any other (they multiply and propagate)
+            ctx.bucket('array-dtype')
+            for dt in (np.float16, np.longdouble, np.float32):
+                try:
+                    pf_ = lentil.Pupil(amplitude=amp.astype(dt), opd=opd if dt is np.float16 else np.asarray(opd).astype(dt),
+                                       pixelscale=dx, focal_length=z, **kw)
+                    qf = pf_.rescale(s)                       # online oracle: bookkeeping
+                    ref_ = np.asarray(lentil.Pupil(amplitude=amp.astype(dt).astype(float), opd=opd, pixelscale=dx, focal_length=z, **kw).rescale(s).amplitude, float)
+                    ctx.close('power', np.asarray(qf.amplitude, float), ref_, 64 * float(np.finfo(dt).eps) if dt is not np.longdouble else 1e-12,
+                              f'rescale|array-dtype|{np.dtype(dt).name}', 'the rescaled amplitude depends on the float type the plane arrays are held in',
+                              desc, scale=float(np.abs(ref_).max()))
+                except Exception as e:
+                    ctx.check(False, 'power', f'rescale|array-dtype|raises={type(e).__name__}',
+                              f'rescale of a plane with {np.dtype(dt).name} arrays raised {type(e).__name__}: {e}', desc)
             try:
                 # chains of sampling changes ending in resample: first-generation results are planes like any other
                 r_a = q.resample(dx)                           # back to the original pixel scale
